@@ -119,12 +119,17 @@ func (d *Drv) onEvent(slot int, spec *ObsSpec, h ecs.Entity, ptrs typed.Ptrs) {
 	// lock state inside the callback (cheap, so not only in probes): locked during removal and batch callbacks,
 	// the caller's lock state otherwise
 	if !h.IsZero() || spec.Ev >= EvCustom0 {
-		wantLocked := spec.Ev.IsBefore() || x.LockedCb || d.M.Locks > 0
+		wantLocked := spec.Ev.IsBefore() || x.LockedCb || d.M.Locks > 0 || d.leaked
 		if d.W.IsLocked() != wantLocked {
 			d.viol("C09", "callback-lock-state", "observer %d (%v) during %s: IsLocked=%v, documented %v", slot, spec.Ev, x.Op.K, d.W.IsLocked(), wantLocked)
 		} else if wantLocked {
 			d.structuralRejected("observer callback")
 		}
+	}
+	if !spec.Ev.IsBefore() && x.Op.Leak != nil && !d.leaked && leakKinds[x.Op.K] {
+		// after-events fire when the operation's structural work is done: a query opened here may stay open
+		d.leaked = true
+		d.openQuery(x.Op.Leak)
 	}
 	if spec.Probe && !d.NoProbe && d.Headroom() {
 		d.probe(slot, spec, id, h)
@@ -177,7 +182,7 @@ func (d *Drv) probe(slot int, spec *ObsSpec, id EID, h ecs.Entity) {
 		return
 	}
 	// lock state
-	wantLocked := before || x.LockedCb || d.M.Locks > 0
+	wantLocked := before || x.LockedCb || d.M.Locks > 0 || d.leaked
 	if d.W.IsLocked() != wantLocked {
 		d.viol("C09", "callback-lock-state", "observer %d (%v) during %s: IsLocked=%v, documented %v", slot, ev, x.Op.K, d.W.IsLocked(), wantLocked)
 	}
